@@ -222,6 +222,24 @@ func opPath(alt bool, parts ...any) op {
 	}}
 }
 
+// versionedTag marks the observation of a load of a versioned URL: "<tag>url|ts|te|version|detail".
+const versionedTag = "versioned:"
+
+func parseVersioned(obs, who string) (versionedRec, bool) {
+	if !strings.HasPrefix(obs, versionedTag) {
+		return versionedRec{}, false
+	}
+	f := strings.SplitN(obs[len(versionedTag):], "|", 5)
+	if len(f) != 5 {
+		return versionedRec{}, false
+	}
+	r := versionedRec{url: f[0], detail: f[4], who: who}
+	fmt.Sscanf(f[1], "%d", &r.ts)
+	fmt.Sscanf(f[2], "%d", &r.te)
+	fmt.Sscanf(f[3], "%d", &r.version)
+	return r, true
+}
+
 // selfCheck marks an observation that violates the property by itself (whatever the oracle says).
 const selfCheck = "SELF-CHECK-FAILED:"
 
@@ -241,6 +259,16 @@ func opLoad(which, u string) op {
 			l = e.cliLd
 		case "both":
 			l = e.bothLd
+		}
+		if isVersionedURL(u) {
+			// content changes with every fetch: the result is judged afterwards (checkVersioned)
+			ts := sinceStart()
+			doc, err := l.LoadDocument(u)
+			te := sinceStart()
+			if err != nil {
+				return fmt.Sprintf("%s%s|%d|%d|0|%s", versionedTag, u, ts, te, errClass(err))
+			}
+			return fmt.Sprintf("%s%s|%d|%d|%d|url=%s", versionedTag, u, ts, te, docVersion(doc), doc.DocumentURL)
 		}
 		doc, err := l.LoadDocument(u)
 		if err != nil {
@@ -341,6 +369,9 @@ func buildPool(seed int64, sharedDoc testDoc, resolve func(dotted string) (merkl
 	add(opLoad("gw", urlUnknown))
 	for _, su := range slowURLs {
 		add(opLoad("gw", su.url))
+	}
+	for _, v := range versionedURLs {
+		add(opLoad("gw", v.url))
 	}
 	add(opLoad("gw", "ftp://example.org/unsupported-scheme"))
 	add(opLoad("gw", "ipfs://QmeMevwUeD7o6hjfmdaeFD1q4L84hSDiRjeXZLi1bZK1My"))
@@ -449,14 +480,27 @@ func runMix(cfg *config, out *output) error {
 	merklize.SetDocumentLoader(oenv.loader) // default-loader ops of the oracle use the oracle's loader
 	oracleEnv := &mixEnv{loader: oenv.loader, cliLd: oenv.cliLd, bothLd: oenv.bothLd, mz: sharedMz, mzDoc: []byte(sharedDoc.JSON)}
 	want := make([]string, len(pool))
+	var oracleRecs, sharedRecs []versionedRec
 	t0 := time.Now()
 	var mzDur time.Duration
 	var mzCnt int
+	// the answers of the shared merklizer before any other document is merklized: merklizing other
+	// documents afterwards must not change them (buffers or state shared between merklizers)
+	pristine := map[int]string{}
+	for i := range pool {
+		if pool[i].kind == "proof" || pool[i].kind == "proof-resolve" {
+			pristine[i], _ = safeRun(&pool[i], oracleEnv)
+		}
+	}
 	for i := range pool {
 		ts := time.Now()
 		obs, pan := safeRun(&pool[i], oracleEnv)
 		if pan != "" {
 			out.addPanic("oracle: " + pan)
+		}
+		if vr, ok := parseVersioned(obs, "sequential oracle:"); ok {
+			oracleRecs = append(oracleRecs, vr)
+			obs = versionedTag
 		}
 		want[i] = obs
 		if strings.HasPrefix(obs, selfCheck) {
@@ -468,10 +512,21 @@ func runMix(cfg *config, out *output) error {
 			mzCnt++
 		}
 	}
+	for i, p0 := range pristine {
+		if want[i] != p0 {
+			out.addMismatch(mismatch{Goroutine: -1, Op: i, Kind: "merklizer-changed-by-other-merklizations",
+				What: "sequential oracle: " + pool[i].kind + "(" + pool[i].arg + ") on the shared merklizer before and after other documents were merklized",
+				Want: p0, Got: want[i]})
+		}
+	}
 	// run the oracle a second time: the expected values themselves must be
 	// deterministic (warm oracle cache vs cold oracle cache)
 	for i := range pool {
 		obs, _ := safeRun(&pool[i], oracleEnv)
+		if vr, ok := parseVersioned(obs, "sequential oracle (second pass):"); ok {
+			oracleRecs = append(oracleRecs, vr)
+			obs = versionedTag
+		}
 		if strings.HasPrefix(obs, selfCheck) && obs != want[i] {
 			out.addMismatch(mismatch{Goroutine: -1, Op: i, Kind: "load-wrong-document-url",
 				What: "sequential oracle (warm): " + pool[i].kind + "(" + pool[i].arg + ")", Want: "DocumentURL = requested URL", Got: obs})
@@ -523,6 +578,12 @@ func runMix(cfg *config, out *output) error {
 			ipfsOps = append(ipfsOps, i)
 		}
 	}
+	var versionedOps []int // loads of origins whose content changes with every fetch
+	for _, i := range byKind["load"] {
+		if isVersionedURL(pool[i].arg) {
+			versionedOps = append(versionedOps, i)
+		}
+	}
 	var slowOps []int // loads of slow origins whose responses are not cacheable / short-lived
 	for _, i := range byKind["load"] {
 		a := pool[i].arg
@@ -554,7 +615,11 @@ func runMix(cfg *config, out *output) error {
 						// merklized other documents (buffers or state shared between merklizers)
 						idx = mzOps[rng.Intn(len(mzOps))]
 					}
-					if (i == 3 || i == 4) && len(slowOps) > 0 {
+					if (i == 3 || (i == 0 && r > 0)) && len(versionedOps) > 0 {
+						// thundering herd on an origin whose content changes: right after the start of
+						// a later round (entries of the previous round have expired) and once more
+						idx = versionedOps[rng.Intn(len(versionedOps))]
+					} else if i == 4 && len(slowOps) > 0 {
 						// ... and then everybody loads one of the few slow, uncacheable origins: many
 						// loads of one URL are in flight together
 						idx = slowOps[rng.Intn(len(slowOps))]
@@ -597,6 +662,11 @@ func runMix(cfg *config, out *output) error {
 				if res.panic != "" {
 					out.addPanic(fmt.Sprintf("round %d goroutine %d op %d: %s", r+1, g, i, res.panic))
 				}
+				if vr, ok := parseVersioned(res.obs, fmt.Sprintf("round %d goroutine %d op %d:", r+1, g, i)); ok {
+					sharedRecs = append(sharedRecs, vr)
+					res.obs = versionedTag
+					out.Distribution["load_versioned"]++
+				}
 				if res.obs != want[res.op] {
 					out.addMismatch(mismatch{Goroutine: g, Op: i, Kind: o.kind,
 						What: fmt.Sprintf("round %d %s(%s)", r+1, o.kind, o.arg), Want: want[res.op], Got: res.obs})
@@ -633,6 +703,12 @@ func runMix(cfg *config, out *output) error {
 		"shared merklizer: document "+sharedDoc.Name+", built once with the oracle's loader; oracle proofs use the same merklizer",
 		"embedded document: "+embeddedURL)
 	out.Distribution["ipfs_cats"] = senv.cli.cats
+	for _, m := range oenv.checkVersioned(oracleRecs) {
+		out.addMismatch(m)
+	}
+	for _, m := range senv.checkVersioned(sharedRecs) {
+		out.addMismatch(m)
+	}
 	// cached documents are shared by pointer: none may differ from the copy taken when it was stored
 	for _, env := range []*loaderEnv{oenv, senv} {
 		for _, eng := range env.engines {
